@@ -91,7 +91,7 @@ def verify_unit(uname, extra=(), want_vac=True, tag=""):
     out.update({
         "unit_obj": unit, "crate": crate,
         "functions": unit.functions, "types": unit.types, "clauses": unit.clauses,
-        "edits": unit.edits, "macro_rewrites": unit.macro_rewrites,
+        "edits": unit.edits, "macro_rewrites": unit.macro_rewrites, "hints_lost": unit.hints_lost,
         "summary": summ, "failures": failures, "undecided": undecided,
         "cmd": main["cmd"], "trusted_scan": trusted_scan(unit.text()),
         "raw_err": main["raw_err"] if summ["tool_error"] else "",
@@ -308,9 +308,15 @@ def cmd_check(args):
         fnmeta = {fn["fn"]: fn for fn in u["functions"]}
         kf_expected = {fn["kf"]: fn for fn in u["functions"] if fn.get("kf")}
         kf_seen = set()
+        for fq, msgs in u.get("hints_lost", {}).items():
+            if fq in relevant_functions(u, pid):
+                undecided_msgs.append("%s: proof scaffolding of %s no longer matches the code (%s); its obligations are undecided" % (
+                    u["unit"], fq, msgs[0]))
         for f in u["failures"]:
             meta = fnmeta.get(f.get("fn"))
             name = obligation_name(u, f)
+            if f.get("fn") in u.get("hints_lost", {}):
+                continue   # undecided, reported above
             if meta and meta.get("kf"):
                 kf_seen.add(meta["kf"])
                 continue
